@@ -272,8 +272,12 @@ func (e *Engine) globalReadOnly(g *ssa.Global) bool {
 						ok = false
 						continue
 					}
-					if !readOnlyUse(load, 0) {
-						ok = false
+					// immutable values (errors, strings, numbers): only a store to the variable itself matters
+					switch g.Type().(*types.Pointer).Elem().Underlying().(type) {
+					case *types.Map, *types.Slice, *types.Pointer:
+						if !readOnlyUse(load, 0) {
+							ok = false
+						}
 					}
 				}
 			}
